@@ -35,7 +35,7 @@ import (
 	"verif/internal/model"
 )
 
-const rule = "cases: a shared value of each structure type (certificate, key certificate with known, reserved and unknown type codes, keys-and-cert, destination, router identity, router address, RouterInfo, LeaseSet, LeaseSet2 with options and offline block, MetaLeaseSet, EncryptedLeaseSet, offline signature, signature, mapping, lease, Lease2; parsed from a fixed-shape model encoding derived from a seed or (half of the cases) from an encoding drawn from the structure generators of C01/C02 - every key type, flag combination, option set, offline block, lease order -, and for identities / LeaseSet2 also built through the constructors) x 2..16 goroutines, each running a generated list of 5..40 read-only operations drawn from {every exported argument-free method of the value (serialise, hash, addresses, validate, verify, accessors), size-table lookups, parsing other data, verifying a forged sibling of the shared value (one bit of its serialisation changed; must never verify, whatever was verified before), the base32/base64 codecs, the integer / date / string / hash helpers, constructors of certificates, key certificates, router addresses and leases} with generated runtime.Gosched points behind a start barrier; binary built with -race. Oracle: the race detector reports nothing (a report ends the process and the pending case file is the replay), every concurrent result equals the result of the same operation computed sequentially before the fan-out, and the serialisation is unchanged afterwards. Schedules are sampled, not enumerated. Non-trivial: >= 2 goroutines executed at least one common operation on the same value; distinct by (target, operation lists)."
+const rule = "cases: a shared value of each structure type (certificate, key certificate with known, reserved and unknown type codes, keys-and-cert, destination, router identity, router address, RouterInfo, LeaseSet, LeaseSet2 with options and offline block, MetaLeaseSet, EncryptedLeaseSet, offline signature, signature, mapping, lease, Lease2; parsed from a fixed-shape model encoding derived from a seed or (half of the cases) from an encoding drawn from the structure generators of C01/C02 - every key type, flag combination, option set, offline block, lease order -, and for identities / LeaseSet2 / mappings (also with a repeated key) also built through the constructors) x 2..16 goroutines, each running a generated list of 5..40 read-only operations drawn from {every exported argument-free method of the value (serialise, hash, addresses, validate, verify, accessors), size-table lookups, parsing other data, verifying a forged sibling of the shared value (one bit of its serialisation changed; must never verify, whatever was verified before), the base32/base64 codecs, the integer / date / string / hash helpers, constructors of certificates, key certificates, router addresses and leases} with generated runtime.Gosched points behind a start barrier; binary built with -race. Oracle: the race detector reports nothing (a report ends the process and the pending case file is the replay), every concurrent result equals the result of the same operation computed sequentially before the fan-out, and the serialisation is unchanged afterwards. Schedules are sampled, not enumerated. Non-trivial: >= 2 goroutines executed at least one common operation on the same value; distinct by (target, operation lists)."
 
 func TestMain(m *testing.M) {
 	lib.NoSerial = true // shared values reach the goroutines without any method having been called on them
@@ -195,6 +195,19 @@ func build(c Case) (any, []byte, int, error) {
 	case "signature.ReadSignature":
 		b, typ = model.Fill(64, c.Seed), 7
 	case "data.ReadMapping":
+		if c.Built {
+			// constructed through MappingValues.Add + ValuesToMapping; one case in two with a
+			// repeated key (Add does not refuse it; HasDuplicateKeys exists to report it)
+			mv := data.NewMappingValues(4)
+			for _, kv := range [][2]string{{"b", "2"}, {"a", "1"}, {"host", "1.2.3.4"}} {
+				mv, _ = mv.Add(kv[0], kv[1])
+			}
+			if c.Seed%2 == 0 {
+				mv, _ = mv.Add("a", "3")
+			}
+			mp, err := data.ValuesToMapping(mv)
+			return mp, nil, 0, err
+		}
 		b = model.MustMapping(opts.Build())
 	case "lease.ReadLease":
 		b = model.Fill(44, c.Seed)
